@@ -35,6 +35,15 @@ Definition oerr_code (e : option err) : Z * Z := match e with None => (0, 0) | S
 Definition fin_of (p : Z * Z) : err := if fst p =? 2 then EStream (snd p) else EEOF.
 
 Definition pair_eqb (a b : Z * Z) : bool := (fst a =? fst b) && (snd a =? snd b).
+
+(** Errors that exist only as message strings in the Go code (fmt.Errorf / errors.New) are
+    compared as one class "protocol error": rewording a message must not alarm, while
+    error-vs-success, sentinel errors (EOF, errTooMuchData, stream / H3 errors with their codes)
+    and every returned byte are compared exactly. *)
+Definition coarse (e : Z * Z) : Z * Z :=
+  let c := fst e in
+  if ((5 <=? c) && (c <=? 12)) || (c =? 99) then (50, 0) else e.
+Definition err_eqb (a b : Z * Z) : bool := pair_eqb (coarse a) (coarse b).
 Fixpoint list_eqb {A} (f : A -> A -> bool) (a b : list A) : bool :=
   match a, b with
   | [], [] => true
@@ -78,7 +87,7 @@ Definition fres_eqb (a b : fres) : bool :=
   | RHeaders l h, RHeaders l' h' => (l =? l') && (h =? h')
   | RSettings m d e o, RSettings m' d' e' o' => (m =? m') && Bool.eqb d d' && Bool.eqb e e' && list_eqb pair_eqb o o'
   | RGoaway i, RGoaway i' => i =? i'
-  | RErr e, RErr e' => pair_eqb e e'
+  | RErr e, RErr e' => err_eqb e e'
   | _, _ => false
   end.
 
@@ -110,8 +119,8 @@ Fixpoint rig_run (r : rig) (ops : list op) : list (list Z * Z * (Z * Z) * bool) 
 Definition opres_eqb (m : list Z * Z * (Z * Z) * bool) (o : opres) : bool :=
   let '(out, n, e, isread) := m in
   match o with
-  | RRead b e' => isread && zeqb_list out (hx b) && pair_eqb e e'
-  | RWrite n' e' => negb isread && (n =? n') && pair_eqb e e'
+  | RRead b e' => isread && zeqb_list out (hx b) && err_eqb e e'
+  | RWrite n' e' => negb isread && (n =? n') && err_eqb e e'
   end.
 
 Inductive obs :=
